@@ -8,6 +8,8 @@ lock (the linearisation `C03.serializable` promises), replayed ATOMICALLY on the
   s:k:v  c[k]=v      g:k  c[k]          G:k:d  c.get(k,d)     d:k  del c[k]
   p:k    c.pop(k)    P:k:d c.pop(k,d)   D:k:v  c.setdefault   u:pairs  c.update(pairs)
   I      c.popitem() c    c.clear()     C      c.copy()       e:pairs  c == {pairs}
+  n:pairs c != {pairs}                  i:pairs c |= {pairs}
+  K      c.copy() observed through its items (dict order), class, max_size and eviction-order probe
 on_miss is k ↦ 10k+7.  Output:  <result>,<result>,…|<final items sorted>|<eviction order probe>
 -/
 namespace C03.Driver
@@ -51,6 +53,8 @@ def parseOp? (tok : String) : Option (Op Nat Nat) :=
   | ["c"] => some .clear
   | ["C"] => some .copy
   | ["e", ps] => do some (.eq (.pairs (← parsePairs? ps)))
+  | ["n", ps] => do some (.ne (.pairs (← parsePairs? ps)))
+  | ["i", ps] => do some (.ior (.pairs (← parsePairs? ps)))
   | _ => none
 
 def showOut : Out Nat Nat C → String
@@ -88,7 +92,13 @@ def handle (line : String) : String :=
       let rec go (c : C) (toks : List String) (acc : List String) : Option (C × List String) :=
         match toks with
         | [] => some (c, acc.reverse)
-        | t :: ts => match parseOp? t with
+        | t :: ts =>
+          if t = "K" then       -- copy(), then items in dict order / class / capacity / eviction order of the copy
+            match step c .copy with
+            | (c', .cache cc) =>
+              go c' ts (s!"K{showPairs cc.d}/{if cc.lru then "LRU" else "LRI"}/{cc.max}/{";".intercalate (probe cc (2 * cc.max + 2))}" :: acc)
+            | _ => none
+          else match parseOp? t with
           | some op => let r := step c op; go r.1 ts (showOut r.2 :: acc)
           | none => none
       match go c1 toks [] with
